@@ -68,6 +68,7 @@ func main() {
 	keepBackup := flag.Int("keepbackup", 2, "")
 	walSeg := flag.Int64("walseg", 0, "wal.SegmentSizeBytes (0 = default 64 MB)")
 	stale := flag.Bool("stale", true, "allow follower (stale) reads, used for dumps only")
+	optFsync := flag.Bool("optfsync", false, "namespace option optimized_fsync")
 	flag.Parse()
 
 	ctl = os.NewFile(3, "ctl")
@@ -121,6 +122,7 @@ func main() {
 	nsConf.Replicator = *n
 	nsConf.SnapCount = *snapCount
 	nsConf.SnapCatchup = *snapCatchup
+	nsConf.OptimizedFsync = *optFsync
 	nsConf.RaftGroupConf.GroupID = 1000
 	nsConf.RaftGroupConf.SeedNodes = seeds
 	nsConf.ExpirationPolicy = common.WaitCompactExpirationPolicy
